@@ -50,6 +50,22 @@ class BuiltinMixin(CallMixin):
             self.oblige(st, c, "stub-pre", line, str(args[1]) if len(args) > 1 else "require")
             st.assume(c)
             return [(st, None)]
+        if name == "suspend_point":
+            # other tasks run while the caller is suspended: havoc what the top-level contract's rely clause names,
+            # re-assume its rely invariants; then either resume or deliver a cancellation (DESIGN §2.6)
+            import asyncio
+            self.apply_rely(st, ctx, line)
+            if not self.feasible(st):
+                return []
+            s2 = st.clone()
+            s2.trace.append(f"cancelled-at:{ctx.func.qualname}")
+            return [(st, None), (s2, Raise(self.make_exc(s2, PyClass(asyncio.CancelledError), ())))]
+        if name == "cancel_point":
+            # a suspension point: either the task is resumed normally, or a cancellation is delivered here
+            import asyncio
+            s2 = st.clone()
+            s2.trace.append(f"cancelled-at:{ctx.func.qualname}")
+            return [(st, None), (s2, Raise(self.make_exc(s2, PyClass(asyncio.CancelledError), ())))]
         if name == "seq_of":
             v = args[0]
             if isinstance(v, tuple) and len(v) == 3 and v[0] == "$map" and isinstance(v[1], Builtin) and v[1].name in ("memoryview", "bytes"):
@@ -69,16 +85,12 @@ class BuiltinMixin(CallMixin):
             from .interp import EXC_REPRESENTATIVES
             base = args[0]
             excl = args[1:] if len(args) > 1 else ()
-            out = []
-            for pc_ in EXC_REPRESENTATIVES:
-                cv = PyClass(pc_)
-                if not self.is_subclass(cv, base):
-                    continue
-                if any(self.is_subclass(cv, x) for x in excl):
-                    continue
-                s2 = st.clone()
-                out.append((s2, Raise(self.make_exc(s2, cv, ()))))
-            return out
+            cands = [PyClass(k) for k in EXC_REPRESENTATIVES
+                     if self.is_subclass(PyClass(k), base) and not any(self.is_subclass(PyClass(k), x) for x in excl)]
+            if not cands:
+                return []
+            st.trace.append(f"raised:any-{base.cls.__name__ if isinstance(base, PyClass) else base.ci.name}:in:{ctx.func.qualname}")
+            return [(st, Raise(self.make_exc_any(st, cands)))]
         if name == "len":
             v = self.need(st, ctx, a[0], line, "len-arg")
             if isinstance(v, Ref) and META[v.oid].kind == "object":
@@ -93,6 +105,14 @@ class BuiltinMixin(CallMixin):
             if smt.is_int(v):
                 # bytes(n) / bytearray(n): n zero bytes
                 data = smt.fresh("zeros", smt.Bytes)
+                v = z3.simplify(v)
+                if z3.is_int_value(v) and v.as_long() > 4096:
+                    # a large concrete size is abstracted to "some non-zero size" (sound over-approximation; sequence
+                    # solvers unfold concrete lengths)
+                    st.assume(smt.L(data) >= 1)
+                    if name == "bytes":
+                        return [(st, data)]
+                    return [(st, self.new_bytebuf(st, data))]
                 st.assume(smt.L(data) == v)
                 if name == "bytes":
                     return [(st, data)]
@@ -142,8 +162,13 @@ class BuiltinMixin(CallMixin):
         if name == "abs":
             return [(st, z3.If(a[0] < 0, -a[0], a[0]))]
         if name == "isinstance":
+            v0 = args[0]
+            if isinstance(v0, Ref) and META[v0.oid].kind == "exc" and isinstance(args[1], (PyClass, ClassVal, tuple)):
+                return [(s2, z3.BoolVal(b)) for s2, b in self.split_exc(st, v0, args[1])]
             return [(st, self.isinstance_(st, args[0], args[1]))]
         if name == "issubclass":
+            if isinstance(args[0], tuple) and args[0] and args[0][0] == "$exctype":
+                return [(s2, z3.BoolVal(b)) for s2, b in self.split_exc(st, args[0][1], args[1])]
             return [(st, z3.BoolVal(self.is_subclass(args[0], args[1])))]
         if name == "callable":
             return [(st, z3.BoolVal(isinstance(args[0], (Closure, BoundMethod, ClassVal, Builtin))))]
@@ -182,6 +207,8 @@ class BuiltinMixin(CallMixin):
             return self.call_next(st, ctx, args, line)
         if name == "type":
             v = args[0]
+            if isinstance(v, Ref) and META[v.oid].kind == "exc":
+                return [(st, ("$exctype", v))]
             if isinstance(v, Ref):
                 return [(st, META[v.oid].cls)]
             raise EngineError("type() of non-object")
